@@ -862,6 +862,250 @@ example :
     x.2 = .ok ∧ sharedBuffers x.1.q = 0 ∧ (x.1.delivered.map (·.data)).flatten = pattern 64 7 3
       ∧ x.1.delivered.all (fun d => d.stream == 5 && d.status == S_OK) = true := by decide
 
+/-! ### `pcm_xfer_partial`: delivery exactly once, in order, for in-order all-OK devices
+
+The full-strength statement (for *every* device) is OPEN above — it fails on the code (F10).  What
+holds, and is proved here for all frame lengths, all periods > 0, both descriptor modes, every
+timing/burst behaviour of an in-order all-OK device and every fuel: the loop never returns an error
+and never panics, and whenever it returns it has delivered exactly the chunks, once, in order,
+tagged, nothing left shared.  (Termination is not part of the statement: a device that never
+completes keeps the driver spinning, as in the code.) -/
+def mk (ind : Bool) (sid : Nat) (p : Nat × Bytes) : Chain :=
+  { tok := p.1, ndesc := if ind then 1 else 3, rd := [encXferHdr sid, p.2], wr := [8] }
+
+structure K (ind : Bool) (sid : Nat) (all : List Bytes) (x : XS) : Prop where
+  size : x.q.size = 32
+  hind : x.q.indirect = ind
+  chains : x.q.used.map (·.chain) ++ x.q.outstanding = x.ring.map (mk ind sid)
+  okw : ∀ u ∈ x.q.used, u.written = statusBytes S_OK
+  used : x.q.numUsed = x.ring.length * (if ind then 1 else 3)
+  bound : x.q.numUsed ≤ 32
+  data : x.delivered.map (·.data) ++ x.q.outstanding.map (fun c => c.rd.getD 1 []) ++ x.remaining = all
+  tags : ∀ dl ∈ x.delivered, dl.stream = fromLE (encXferHdr sid) ∧ dl.status = S_OK
+  scr : ∀ a ∈ x.script, a = .idle ∨ a = .complete 0 S_OK ∨ a = .all
+
+theorem mem_ring_chain {ind sid all x} (k : K ind sid all x) : ∀ c ∈ x.q.outstanding, ∃ p, c = mk ind sid p := by
+  intro c hc
+  have : c ∈ x.ring.map (mk ind sid) := by rw [← k.chains]; simp [hc]
+  obtain ⟨p, _, hp⟩ := List.mem_map.1 this
+  exact ⟨p, hp.symm⟩
+
+theorem deliver0 {ind sid all x} (k : K ind sid all x) : K ind sid all (deliver x 0 S_OK) := by
+  unfold deliver
+  cases ho : x.q.outstanding with
+  | nil => simpa [ho] using k
+  | cons c rest =>
+    obtain ⟨p, hp⟩ := mem_ring_chain k c (by simp [ho])
+    have hc := k.chains
+    have hd := k.data
+    simp only [ho] at hc hd
+    simp only [List.getElem?_cons_zero, complete, ho]
+    refine ⟨k.size, k.hind, ?_, ?_, k.used, k.bound, ?_, ?_, k.scr⟩
+    · simpa [List.eraseIdx] using hc
+    · intro u hu
+      simp only [List.mem_append, List.mem_singleton] at hu
+      rcases hu with hu | rfl
+      · exact k.okw u hu
+      · rfl
+    · simpa [List.eraseIdx, hp, mk] using hd
+    · intro dl hdl
+      simp only [List.mem_append, List.mem_singleton] at hdl
+      rcases hdl with h | rfl
+      · exact k.tags dl h
+      · simp [hp, mk]
+
+theorem deliverAll_K {ind sid all} : ∀ (fuel : Nat) (x : XS), K ind sid all x → K ind sid all (deliverAll fuel x) := by
+  intro fuel
+  induction fuel with
+  | zero => intro x k; simpa [deliverAll] using k
+  | succ n ih =>
+    intro x k
+    simp only [deliverAll]
+    split
+    · exact k
+    · exact ih _ (deliver0 k)
+
+theorem withScript {ind sid all x} (k : K ind sid all x) (rest : List Act) (h : ∀ a ∈ rest, a ∈ x.script) :
+    K ind sid all { x with script := rest } :=
+  ⟨k.size, k.hind, k.chains, k.okw, k.used, k.bound, k.data, k.tags, fun a ha => k.scr a (h a ha)⟩
+
+theorem deviceStep_K {ind sid all x} (k : K ind sid all x) : K ind sid all (deviceStep x) := by
+  unfold deviceStep
+  cases hs : x.script with
+  | nil => simp only; exact deliverAll_K _ _ k
+  | cons a rest =>
+    have hrest : ∀ b ∈ rest, b ∈ x.script := by intro b hb; simp [hs, hb]
+    have ha := k.scr a (by simp [hs])
+    rcases ha with rfl | rfl | rfl
+    · exact withScript k rest hrest
+    · simp only [Nat.zero_min]
+      exact deliver0 (withScript k rest hrest)
+    · exact deliverAll_K _ _ (withScript k rest hrest)
+
+theorem mk_ndesc (q : Q) (ind : Bool) (h : q.indirect = ind) : descsFor q 3 = if ind then 1 else 3 := by
+  simp [descsFor, h]
+
+/-- one loop iteration against an in-order all-OK device: never an error, never a panic; it either
+continues with the invariant intact or returns `Ok` with nothing left to send and nothing in flight -/
+theorem xferIter_K {ind sid all x} (k : K ind sid all x) :
+    (∃ x', xferIter sid x = (x', none) ∧ K ind sid all x') ∨
+    (∃ x', xferIter sid x = (x', some .ok) ∧ K ind sid all x' ∧ x'.remaining = [] ∧ x'.ring = []) := by
+  -- the pop phase and device step, shared by both add-phase outcomes
+  have popPart : ∀ y : XS, K ind sid all y →
+      ∃ y', (match (if canPop y.q then
+              match y.ring with
+              | [] => (y, some XRes.panic)
+              | (tok, _) :: rest =>
+                match popUsed y.q tok with
+                | .error e => (y, some (.err (.q e)))
+                | .ok (q', u) =>
+                  if effStatus u.written ≠ S_OK then ({ y with q := q', ring := rest }, some (.err .ioError))
+                  else ({ y with q := q', ring := rest }, none)
+            else (y, none)) with
+          | (x, some r) => (x, some r)
+          | (x, none) => (deviceStep x, none)) = (y', none) ∧ K ind sid all y' := by
+    intro y ky
+    by_cases hcp : canPop y.q = true
+    · simp only [hcp, ↓reduceIte]
+      have hne : y.q.used ≠ [] := by simpa [canPop] using hcp
+      obtain ⟨u, us, hu⟩ := List.exists_cons_of_ne_nil hne
+      have hc := ky.chains
+      rw [hu] at hc
+      cases hr : y.ring with
+      | nil => simp [hr] at hc
+      | cons p rest =>
+        obtain ⟨tok, c⟩ := p
+        simp only [hr, List.map_cons, List.cons_append, List.cons.injEq] at hc
+        have htok : u.chain.tok = tok := by rw [hc.1]; rfl
+        have hw : u.written = statusBytes S_OK := ky.okw u (by simp [hu])
+        have hnd : u.chain.ndesc = if ind then 1 else 3 := by rw [hc.1]; rfl
+        simp only [popUsed, hu, htok, ne_eq, not_true_eq_false, ↓reduceIte, hw]
+        have hst : effStatus (statusBytes S_OK) = S_OK := by decide
+        simp only [hst, not_true_eq_false, ↓reduceIte]
+        refine ⟨_, rfl, deviceStep_K ?_⟩
+        refine ⟨ky.size, ky.hind, ?_, ?_, ?_, ?_, ky.data, ky.tags, ky.scr⟩
+        · simpa using hc.2
+        · intro v hv; exact ky.okw v (by simp [hu, hv])
+        · simp only [ky.used, hr, List.length_cons, hnd]
+          cases ind <;> simp <;> omega
+        · simp only; have := ky.bound; omega
+    · simp only [hcp, Bool.false_eq_true, ↓reduceIte]
+      exact ⟨_, rfl, deviceStep_K ky⟩
+  unfold xferIter
+  by_cases ha : availableDesc x.q ≥ 3
+  · simp only [ha, ↓reduceIte]
+    cases hrem : x.remaining with
+    | cons c rest =>
+      obtain ⟨q', tok, hadd, hb, hsz⟩ := Props.C20.Sound.add_never_full x.q (encXferHdr sid) c 8
+        (by rw [k.size]; exact k.bound) (by rw [k.size]; decide) ha
+      have hq' := Props.C20.Sound.xferIter_tags sid x c rest hrem ha q' tok hadd
+      have hq'u : q'.used = x.q.used ∧ q'.indirect = x.q.indirect ∧ q'.numUsed = x.q.numUsed + descsFor x.q 3 := by
+        simp only [add] at hadd
+        split at hadd
+        · simp at hadd
+        · split at hadd
+          · simp at hadd
+          · simp only [Except.ok.injEq, Prod.mk.injEq] at hadd
+            obtain ⟨rfl, _⟩ := hadd
+            simp
+      simp only [hadd]
+      left
+      have ky : K ind sid all (XS.mk q' rest (x.ring ++ [(tok, c)]) x.script x.delivered (x.submitted + 1)
+          (max x.maxOut (x.ring ++ [(tok, c)]).length)) := by
+        refine ⟨by rw [hsz]; exact k.size, by rw [hq'u.2.1]; exact k.hind, ?_, ?_, ?_, ?_, ?_, k.tags, k.scr⟩
+        · simp only [hq'u.1, hq', List.map_append, List.map_cons, List.map_nil, ← List.append_assoc, k.chains]
+          simp [mk, mk_ndesc x.q ind k.hind]
+        · intro u hu; exact k.okw u (by rw [← hq'u.1]; exact hu)
+        · simp only [hq'u.2.2, k.used, mk_ndesc x.q ind k.hind, List.length_append, List.length_singleton]
+          cases ind <;> simp <;> omega
+        · rw [hsz, k.size] at hb; exact hb
+        · have hd := k.data
+          simp only [hrem] at hd
+          simp only [hq', List.map_append, List.map_cons, List.map_nil, List.getD_cons_succ, List.getD_cons_zero]
+          simpa using hd
+      obtain ⟨y', hy', ky'⟩ := popPart _ ky
+      exact ⟨y', hy', ky'⟩
+    | nil =>
+      simp only
+      by_cases hz : x.ring.length % QUEUE_SIZE = 0
+      · simp only [hz, ↓reduceIte]
+        right
+        refine ⟨x, rfl, k, hrem, ?_⟩
+        -- three free descriptors and a ring length that is a multiple of 32 leave only the empty ring
+        have hu := k.used
+        have hb := k.bound
+        have hlen : x.ring.length < 32 := by
+          simp only [availableDesc, k.hind, k.size] at ha
+          cases ind
+          · simp at ha hu; omega
+          · simp at ha hu
+            by_cases h32 : x.q.numUsed = 32
+            · simp [h32] at ha
+            · omega
+        have : x.ring.length = 0 := by simp only [QUEUE_SIZE] at hz; omega
+        exact List.length_eq_zero_iff.1 this
+      · simp only [hz, ↓reduceIte]
+        left
+        obtain ⟨y', hy', ky'⟩ := popPart _ k
+        exact ⟨y', hy', ky'⟩
+  · simp only [ha, ↓reduceIte]
+    left
+    obtain ⟨y', hy', ky'⟩ := popPart _ k
+    exact ⟨y', hy', ky'⟩
+
+theorem xferLoop_K {ind sid all} : ∀ (fuel : Nat) (x : XS), K ind sid all x →
+    (xferLoop sid fuel x).2 = .fuel ∨
+    ((xferLoop sid fuel x).2 = .ok ∧ K ind sid all (xferLoop sid fuel x).1
+      ∧ (xferLoop sid fuel x).1.remaining = [] ∧ (xferLoop sid fuel x).1.ring = []) := by
+  intro fuel
+  induction fuel with
+  | zero => intro x _; left; rfl
+  | succ n ih =>
+    intro x k
+    rcases xferIter_K k with ⟨x', h, k'⟩ | ⟨x', h, k', hr, hg⟩
+    · simp only [xferLoop, h]; exact ih x' k'
+    · right; simp only [xferLoop, h]; exact ⟨by trivial, k', hr, hg⟩
+
+/-- the script of an in-order all-OK device: at each busy-wait iteration it does nothing, completes the
+oldest message in flight with status OK, or completes everything in flight oldest first -/
+def InOrderAllOk (script : List Act) : Prop := ∀ a ∈ script, a = .idle ∨ a = .complete 0 S_OK ∨ a = .all
+
+/-- **`pcm_xfer` against an in-order all-OK device** (any timing, any burst sizes, both descriptor
+modes, ALL frame lengths and period sizes > 0): the loop never fails and never panics; when it returns
+it returns `Ok`, the device has received exactly the chunks of the caller's frames, once each, in
+order, each tagged with the stream id and answered OK, and no buffer is left shared. -/
+theorem pcm_xfer_partial (q0 : Q) (sid period : Nat) (frames : Bytes) (script : List Act) (fuel : Nat)
+    (hq : q0.size = 32 ∧ q0.numUsed = 0 ∧ q0.outstanding = [] ∧ q0.used = []) (hp : 0 < period)
+    (hs : InOrderAllOk script) :
+    let r := xferLoop sid fuel (xferStart q0 period frames script)
+    r.2 = .fuel ∨
+    (r.2 = .ok ∧ r.1.delivered.map (·.data) = pcmChunks period frames
+      ∧ (r.1.delivered.map (·.data)).flatten = frames
+      ∧ (∀ d ∈ r.1.delivered, d.stream = fromLE (encXferHdr sid) ∧ d.status = S_OK)
+      ∧ r.1.q.outstanding = [] ∧ r.1.q.used = [] ∧ sharedBuffers r.1.q = 0) := by
+  intro r
+  have k0 : K q0.indirect sid (pcmChunks period frames) (xferStart q0 period frames script) := by
+    refine ⟨hq.1, rfl, ?_, ?_, ?_, ?_, ?_, ?_, hs⟩
+    · simp [xferStart, hq.2.2.1, hq.2.2.2]
+    · simp [xferStart, hq.2.2.2]
+    · simp [xferStart, hq.2.1]
+    · simp [xferStart, hq.2.1]
+    · simp [xferStart, hq.2.2.1]
+    · simp [xferStart]
+  rcases xferLoop_K fuel _ k0 with h | ⟨h, k, hr, hg⟩
+  · left; exact h
+  · right
+    have hc := k.chains
+    rw [hg] at hc
+    simp only [List.map_nil, List.append_eq_nil_iff, List.map_eq_nil_iff] at hc
+    have hd := k.data
+    rw [hc.2, hr] at hd
+    simp only [List.map_nil, List.append_nil] at hd
+    refine ⟨h, hd, ?_, k.tags, hc.2, hc.1, ?_⟩
+    · rw [hd]; exact Props.C20.Sound.pcmChunks_concat period frames hp
+    · show sharedBuffers (xferLoop sid fuel (xferStart q0 period frames script)).1.q = 0
+      simp [sharedBuffers, shared, hc.1, hc.2]
+
 end Sound
 
 /-! ## entropy, clock, 9P -/
